@@ -171,6 +171,14 @@ fn apply(st: &mut State, step: &Step, counts: &mut Vec<&'static str>) -> Result<
             let r2: Result<(), std::fmt::Error> = if fail { Err(std::fmt::Error) } else { Ok(()) };
             let c2 = r2.into_int_result();
             vcheck!((c2 == 0) == !fail, "intres.err_encoded_as_zero", "fmt::Error", "Result<_, fmt::Error> fail={} encoded as {}", fail, c2);
+            // the slot-less encoder with a payload that owns something: there is nowhere to
+            // move it to, so it is destroyed (once) by the time the code is returned
+            let id = st.next_id;
+            st.next_id += 1;
+            let r3: Result<Pay, UserErr> = if fail { Err(UserErr(code)) } else { Ok(Pay::new(id, &st.reg)) };
+            let c3 = track(|| if step.arg(2) & 1 == 1 { r3.into_int_result() } else { into_int_result(r3) });
+            vcheck!((c3 == 0) == !fail, "intres.err_encoded_as_zero", "into_int_result", "Result<payload, UserErr> fail={} encoded as {}", fail, c3);
+            reg_check(st, "after the slot-less encoder")?;
             let d: Result<(), UserErr> = from_int_result_empty(code);
             vcheck!(d.is_ok() == (code == 0), "intres.decoded_ok_from_error", "from_int_result_empty", "code {} decoded as {:?}", code, d);
             if let Err(e) = d {
